@@ -771,8 +771,11 @@ rt_prop("C02", ["task", "core", "bridge", "comb"],
         "drops, aborts and polls: summed over ALL commands of the world (hosts, hosted commands at any depth, task slabs and "
         "spawn queues) every request channel is referenced by at most one suspended or queued task and no task references a "
         "non-existent channel; commands_never_share_a_channel (two different commands never both reference one channel); "
-        "channels_unshared_over_runs_partial is the earlier single-command form (invariant `Own`). Not proved: the same invariant "
-        "under the Core and Bridge hosts. The "
+        "channels_unshared_over_runs_partial is the earlier single-command form (invariant `Own`). UNDER THE CORE HOST: "
+        "channels_unshared_under_core (invariant `CInv`, Lemmas/XFrame, CoreFrame, GCore, GCoreHosts) — for every app whose commands "
+        "have host-free task bodies and whose legacy capability tasks are host-free, after every history of events, resolutions, "
+        "drops, aborts and probes the same bound holds summed over all commands, the QueuingExecutor's legacy tasks and its spawn "
+        "queue. Not proved: the same invariant under the Bridge host (registry around the same Core). The "
         "whole-run uniqueness of delivery is covered by the correspondence (unique payloads, equal operations, every resolve result "
         "class compared) — oracle keys resolve-result-differs / delivery-differs.")
 rt_prop("C03", ["core", "bridge"],
@@ -806,7 +809,10 @@ rt_prop("C06", ["cancel", "task"],
         "host of any command with any nesting of combinators, Lemmas/HostLt*.lean: hosted commands have smaller indices than "
         "their hosts): hosting_ordered_over_runs; run_is_contained — settling command c, whatever its tasks host, run, cancel, "
         "abort or drop recursively, leaves the task slab and spawn queue of every command above c (its host, the host's host …) "
-        "untouched; drop_is_contained; poll_keeps_own_slab. Non-interference with siblings in terms of outputs is stated "
+        "untouched; drop_is_contained; poll_keeps_own_slab; hosting_ordered_under_core (the same invariant in every state a Core "
+        "reaches: QueuingExecutor, CommandSpawner, legacy tasks, update, event loop, shell operations — invariant CInv); "
+        "command_never_writes_core_queues (nothing inside a command, at any depth, writes the Core's spawn queue, effect channel "
+        "or event channel). Non-interference with siblings in terms of outputs is stated "
         "(siblings_unaffected_goal), covered by the `cancel` profile of the correspondence.",
         goals=["siblings_unaffected_goal"])
 def _add_ext_stream():
@@ -946,7 +952,7 @@ PROPS["C08"] = {
                   "on real threads through the schedule-point hooks (semantic no-ops) and comparing outcomes exactly; sequential "
                   "consistency (the acquire fence of the fix is argued in the commit message, not proved); the schedule controller in "
                   "harness/src/bin/conc.rs; M.Hosts as the sequential specification for the linearizability oracle.",
-    "stated_not_proved": ["linearizability of concurrent Core calls (checked by the race stream only)", "P-slot / P-shared invariants"],
+    "stated_not_proved": ["linearizability of concurrent Core calls (checked by the race stream only)", "P-shared (Core-level shared queues under concurrent calls) invariants"],
     "assumptions": ["sequentially consistent memory", "threads interleave only at schedule points placed where no lock is held"],
 }
 
